@@ -200,7 +200,7 @@ package stage
 //@   before call (*Stage).finalize assert finalize-needs-ready: called((*Stage).isFileReady) && lastret((*Stage).isFileReady, 0) && lastarg((*Stage).isFileReady, 1) == arg1
 
 //@ func (*Stage).fromWait
-//@   ensures returns-and-clears: !has(s.wait, prevPath) && (old(has(s.wait, prevPath)) ==> unchanged(s.wait[prevPath]) && result == old(s.wait[prevPath])) && (!old(has(s.wait, prevPath)) ==> len(result) == 0)
+//@   ensures returns-and-clears: !has(s.wait, prevPath) && (old(has(s.wait, prevPath)) ==> result == old(s.wait[prevPath])) && (!old(has(s.wait, prevPath)) ==> len(result) == 0)
 //@   modifies entries(s.wait)
 
 //@ func (*Stage).detectWaitLoop
